@@ -43,6 +43,9 @@ def build_scripts(ctx, scale):
             for n in (0, 1, 2, 4):
                 ks = [ctx.rng.choice(sc) for _ in range(n)]; ps = [pool.pick(ctx.rng) for _ in range(n)]
                 lines.append('el.msm_vartime %s %s' % (';'.join('%x' % k for k in ks) if n else '-', ';'.join(E(p) for p in ps) if n else '-'))
+            for n in (7, 8, 9, 15, 16, 17):          # term counts around batching boundaries
+                ks = [ctx.rng.choice(sc) for _ in range(n)]; ps = [pool.pick(ctx.rng) for _ in range(n)]
+                lines.append('el.msm_vartime %s %s' % (';'.join('%x' % k for k in ks), ';'.join(E(p) for p in ps)))
             for ps in pool.batches(ctx.rng):
                 ks = [ctx.rng.choice(sc) for _ in ps]
                 lines.append('el.msm_vartime %s %s' % (';'.join('%x' % k for k in ks), ';'.join(E(p) for p in ps)))
@@ -67,6 +70,14 @@ def search(ctx, scale, hints):
         r_l = [(R >> (64 * i)) & (2**64 - 1) for i in range(4)]
         for p in pool.all[:12]:
             lines.append('%s %s %s' % ('el.mul_bigint' if b == 'ark' else 'el.scalar_mul', E(p), L(r_l))); exp.append((0, 1))
+        if b == 'ark':
+            # multi-scalar multiplication = sum of the individual products, for every term count (batching boundaries) incl. repeated and identity terms
+            sc = scalars(ctx.rng, 1)
+            for n in list(range(0, 20)) + [24, 31, 32, 33]:
+                ks = [ctx.rng.choice(sc) % R if i % 3 else (i + 1) for i in range(n)]; ps = [pool.pick(ctx.rng) if i % 4 else bases[i % len(bases)] for i in range(n)]
+                acc = (0, 1)
+                for k, p in zip(ks, ps): acc = pyref.ed_add(acc, pyref.smul(k, pyref.aff(p)))
+                lines.append('el.msm_vartime %s %s' % (';'.join('%x' % k for k in ks) if n else '-', ';'.join(E(p) for p in ps) if n else '-')); exp.append(acc)
         out = harness.run_script(b, lines)
         for l, o, e in zip(lines, out, exp):
             try: got = pyref.aff(parseE(o)); ok = pyref.coset_eq(got, e) and pyref.wf(parseE(o))
